@@ -724,7 +724,7 @@ def run(ck):
                    "distinct = distinct sequence of (thread, operation, variable) of the real trace. Quiescent family: programs with barriers; at every barrier (all threads idle) the master thread "
                    "calls clear_after(off) / clear() / get_free_elements(n) on the real pool when the contract of the method holds (else the call is skipped, on both sides), pools of 1-5 slots, "
                    "block of 0-3 permanent slots taken serially first, cursor started at 0, at size, and just below 2^64; the held-slot views of all threads and the complete state are compared after the call")
-    cov["exhaustive"] = bounds
+    cov["exhaustive_scopes"] = bounds      # per corpus case: which schedule prefixes were enumerated completely (the run as a whole is not exhaustive)
     cov["exhaustive_schedules"] = nexh
     cov["random_schedules"] = nrand
     cov["capped_schedules"] = capped
